@@ -137,10 +137,54 @@ class VFG(object):
         self._build()
 
     # ---- nodes ----
+    def _split_tuples(self, body):
+        """Tuple locals that are only ever built by one tuple aggregate and taken apart by field - `let (a, b, c) = (x, y,
+        z);` - get one value-flow node per component (everything else about tuples stays merged)."""
+        key = getattr(body, "flow_key", None) or body.path
+        memo = self.__dict__.setdefault("_split_memo", {})
+        if key in memo:
+            return memo[key]
+        prog = self.prog
+        cand = set()
+        for l, defs in body.assignments().items():
+            if len(defs) == 1 and defs[0][1] != "term" and defs[0][2]["k"] == "agg" and defs[0][2].get("ak") == "tuple" \
+                    and prog.types[body.locals[l]].get("k") == "tuple" and l > body.argc:
+                cand.add(l)         # (never the return place or a parameter: those are seen whole by the caller)
+        whole = set()
+
+        def walk(x, skip_lhs=False):
+            if isinstance(x, dict):
+                if "l" in x and "p" in x and isinstance(x["l"], int) and isinstance(x["p"], list):
+                    if x["l"] in cand and not (x["p"] and isinstance(x["p"][0], dict) and "f" in x["p"][0]):
+                        whole.add(x["l"])
+                    return
+                for k2, v in x.items():
+                    if k2 in ("callee", "span"):
+                        continue
+                    walk(v)
+            elif isinstance(x, list):
+                for v in x:
+                    walk(v)
+        if cand:
+            for bb in body.normal_blocks():
+                blk = body.blocks[bb]
+                for st in blk["stmts"]:
+                    if st["k"] == "assign" and st["rv"]["k"] == "agg" and st["rv"].get("ak") == "tuple" and \
+                            not st["lhs"]["p"] and st["lhs"]["l"] in cand:
+                        walk(st["rv"])
+                    else:
+                        walk(st)
+                walk(blk["term"])
+        memo[key] = cand - whole
+        return memo[key]
+
     def node_of_place(self, body, pl):
         prog = self.prog
         node = ("L",) + tuple(body.local_key(pl["l"]))
         cur_ty = body.locals[pl["l"]]
+        if pl["p"] and isinstance(pl["p"][0], dict) and "f" in pl["p"][0] and "adt" not in pl["p"][0] and \
+                not pl["p"][0].get("upvar") and pl["l"] in self._split_tuples(body):
+            node = node + ("#%d" % pl["p"][0]["f"],)
         for e in pl["p"]:
             if e == "deref" or not isinstance(e, dict):
                 continue
@@ -321,9 +365,13 @@ class VFG(object):
         if not self.admit_paths_only or how != "direct" or tgt.is_closure or tgt.reachable:
             return None
         depth = getattr(body, "_ctx_depth", 0)
-        if depth >= 2 or len(tgt.blocks) > 80 or tgt.path in getattr(body, "_ctx_chain", ()):
-            return None
         prog = self.prog
+        if depth >= 2 and not self._is_leaf_helper(tgt):
+            # (a small helper that calls nothing of the crate - an error-decorating `ctx(self, op, path)`, say - is copied
+            # at any depth: it cannot multiply contexts further, and merging it would pour every caller's labels into one)
+            return None
+        if len(tgt.blocks) > 80 or tgt.path in getattr(body, "_ctx_chain", ()):
+            return None
         if not can_carry_path(prog, tgt.locals[0]) or prog.ty_str(tgt.locals[0]) in ("()",):
             return None
         if not any(can_carry_path(prog, tgt.locals[i]) for i in range(1, tgt.argc + 1)):
@@ -334,6 +382,15 @@ class VFG(object):
             self._clones[ctxid] = cb
             self._build_body(cb)
         return ctxid
+
+    def _is_leaf_helper(self, tgt):
+        memo = self.__dict__.setdefault("_leaf_memo", {})
+        if tgt.path not in memo:
+            from .core import Site
+            memo[tgt.path] = len(tgt.blocks) <= 24 and not any(
+                tgt.blocks[bb]["term"]["k"] == "call" and self.prog.call_targets(Site(tgt, bb, tgt.blocks[bb]["term"]))
+                for bb in tgt.normal_blocks())
+        return memo[tgt.path]
 
     def _ctx_closure(self, body, cb):
         """Inside a per-call-site copy of a helper, the closures the helper itself writes are copied with it."""
@@ -374,6 +431,9 @@ class VFG(object):
             elif ak == "closure":
                 for i, op in enumerate(rv["ops"]):
                     self.add_edge(self.node_of_operand(body, op), ("U", rv["def"], i))
+            elif ak == "tuple" and not lhs["p"] and lhs["l"] in self._split_tuples(body):
+                for i, op in enumerate(rv["ops"]):
+                    self.add_edge(self.node_of_operand(body, op), dst + ("#%d" % i,))
             else:
                 for op in rv["ops"]:
                     self.add_edge(self.node_of_operand(body, op), dst)
@@ -602,6 +662,13 @@ def _arg_from_wal_template(vfg, site, i):
         seen.add(l)
         for (bb, j, rv) in body.assignments().get(l, []):
             if j == "term":
+                if (term_path(rv) or "").endswith("::new_display") and rv["args"]:
+                    # a name formatted from an integer (`format!("{segment_id}{SUFFIX}")` with the suffix in a constant):
+                    # the only children of the root that are numbered are the log segments
+                    p0 = place_of(rv["args"][0])
+                    if p0 is not None and vfg.prog.ty_str(vfg.prog.strip_refs(body.locals[p0["l"]])) in (
+                            "u64", "u32", "usize", "u128"):
+                        return True
                 for a in rv["args"]:
                     p2 = place_of(a)
                     if p2 is not None:
